@@ -1669,6 +1669,11 @@ class PPTableFormat:
             f"invalid limits specified: {limits}. Expected value is None "
             f"or (n_firts, n_last)")
         self.limit_flines, self.limit_llines = limits
+        # the set of visible records changes, so whatever was detected for
+        # the previous one (columns widths, 'lines skipped' flag) is not valid
+        self.any_lines_skipped = None
+        for col in self.repr_structure.columns:
+            col.width = None
 
     @staticmethod
     def _parse_fmt(fmt):
